@@ -24,3 +24,14 @@ PROPS["C09"] = dict(level="exploration", steps=simple("^(TestC09|TestRefGolden)"
 PROPS["C19"] = dict(level="exploration", steps=simple("^TestC19", shards_thorough=1), assumptions=TRUST)
 PROPS["C06"] = dict(level="fault_enumeration", steps=simple("^TestC06"), assumptions=TRUST)
 PROPS["C05"] = dict(level="exploration", steps=simple("^TestC05"), assumptions=TRUST)
+
+
+def twin(run, shards_thorough=16):
+    def steps(tier):
+        return [dict(run=run, variant="default", shards=(shards_thorough if tier == "thorough" else 1), needs=["noasm"])]
+    return steps
+
+
+PROPS["C03"] = dict(level="exploration", steps=twin("^TestC03"), needs_twin=True, assumptions=TRUST)
+PROPS["C04"] = dict(level="exploration", steps=twin("^TestC04"), needs_twin=True, assumptions=TRUST)
+PROPS["C12"] = dict(level="exploration", steps=twin("^TestC12"), needs_twin=True, assumptions=TRUST)
